@@ -14,7 +14,7 @@ RULE = ("diff: a random operation scenario is run with whole-buffer delivery and
         "non-trivial = the device sent at least one packet with a payload; distinct = distinct (kind, ops, frag, empty-rate | offset | corruption kind+position) signatures")
 ASSUMPTIONS = ["length-field corruption is excluded (framing is lost; behaviour unspecified)", "an empty payload with a non-zero checksum field is accepted by the code and outside the statement"]
 SHARDS = {"quick": 8, "thorough": 16}
-TIME_BUDGET = {"quick": 60, "thorough": 600}
+TIME_BUDGET = {"quick": 300, "thorough": 1800}
 FLOORS = {"quick": {"reads_checked": 20000, "corruptions": 150, "badcmds": 60, "distinct": 100}, "thorough": {"reads_checked": 200000, "corruptions": 1500, "badcmds": 200}}
 
 BAD_WORDS = [0, 0xFFFFFFFF, wire._id(b"FAIL"), wire._id(b"STAT"), wire._id(b"DATA"), wire.A_WRTE ^ 1, wire.A_OKAY ^ 0x80000000, wire.A_CLSE ^ 0x100, wire.A_CNXN + 1, 0x45545258]
